@@ -39,6 +39,9 @@ Theorem C04_and_done_left_unit : forall f c acts, no_spawn acts = true -> ref_di
 Proof. exact and_done_left. Qed.
 Theorem C04_and_done_right_unit : forall f c acts, no_spawn acts = true -> ref_direct (S f) (CAnd c c_done) acts = ref_direct f c acts.
 Proof. exact and_done_right. Qed.
+Theorem C04_then_done_left_unit_traces : forall f c acts t, no_spawn acts = true ->
+  ref_direct f c acts = Some t -> ref_direct (S f) (CThen c_done c) acts = Some t.
+Proof. exact then_done_left_trace. Qed.
 Theorem C04_all_of_nothing_is_done : forall f acts, no_spawn acts = true -> ref_direct (S f) (CAll []) acts = ref_direct (S f) c_done acts.
 Proof. exact all_nil_is_done. Qed.
 
